@@ -25,10 +25,25 @@ let z_of_dec (s : string) : z =
   if neg then Z.opp !acc else !acc
 let n_of_dec (s : string) : n =
   match z_of_dec s with Z0 -> N0 | Zpos p -> Npos p | Zneg _ -> failwith "negative N"
-let rec dec_of_pos_acc (p : positive) : string =
-  (* only used for small values in answers *)
-  string_of_int (int_of_pos p)
-let dec_of_z = function Z0 -> "0" | Zpos p -> dec_of_pos_acc p | Zneg p -> "-" ^ dec_of_pos_acc p
+(* arbitrary-size positive -> decimal string, by doubling a decimal digit string *)
+let dbl_dec (d : string) (carry : int) : string =
+  let n = String.length d in
+  let b = Bytes.make (n + 1) '0' in
+  let c = ref carry in
+  for i = n - 1 downto 0 do
+    let v = (Char.code d.[i] - 48) * 2 + !c in
+    Bytes.set b (i + 1) (Char.chr (48 + v mod 10)); c := v / 10
+  done;
+  Bytes.set b 0 (Char.chr (48 + !c));
+  let s = Bytes.to_string b in
+  if s.[0] = '0' && String.length s > 1 then String.sub s 1 n else s
+let rec dec_of_pos (p : positive) : string =
+  match p with
+  | XH -> "1"
+  | XO q -> dbl_dec (dec_of_pos q) 0
+  | XI q -> dbl_dec (dec_of_pos q) 1
+let dec_of_z = function Z0 -> "0" | Zpos p -> dec_of_pos p | Zneg p -> "-" ^ dec_of_pos p
+let dec_of_n = function N0 -> "0" | Npos p -> dec_of_pos p
 
 let hex_of_str (s : str) : string =
   match s with
@@ -112,6 +127,48 @@ let p_strlist () : str list =
   go n
 
 (* ---- printing ---------------------------------------------------------- *)
+let w_optz = function None -> "n" | Some z -> dec_of_z z
+let w_range = function
+  | Index i -> "i " ^ dec_of_z i
+  | Range (a, b, inc) -> "r " ^ w_optz a ^ " " ^ w_optz b ^ " " ^ (if inc then "1" else "0")
+let rec w_op (o : op) : string =
+  match o with
+  | Split (s, r) -> "split " ^ hex_of_str s ^ " " ^ w_range r
+  | Join s -> "join " ^ hex_of_str s
+  | Replace (a, b, c) -> "replace " ^ hex_of_str a ^ " " ^ hex_of_str b ^ " " ^ hex_of_str c
+  | Upper -> "upper" | Lower -> "lower"
+  | Trim (c, d) -> "trim " ^ hex_of_str c ^ " " ^ (match d with TBoth -> "b" | TLeft -> "l" | TRight -> "r")
+  | Substring r -> "substring " ^ w_range r
+  | Append s -> "append " ^ hex_of_str s
+  | Prepend s -> "prepend " ^ hex_of_str s
+  | Surround s -> "surround " ^ hex_of_str s
+  | StripAnsi -> "strip_ansi"
+  | Filter p -> "filter " ^ hex_of_str p
+  | FilterNot p -> "filter_not " ^ hex_of_str p
+  | Slice r -> "slice " ^ w_range r
+  | Map b -> "map " ^ w_ops b
+  | Sort d -> "sort " ^ (match d with Asc -> "a" | Desc -> "d")
+  | Reverse -> "reverse" | Unique -> "unique"
+  | Pad (w, c, d) -> "pad " ^ dec_of_n w ^ " " ^ Printf.sprintf "%x" (int_of_n c) ^ " " ^ (match d with PLeft -> "l" | PRight -> "r" | PBoth -> "b")
+  | RegexExtract (p, g) -> "regex_extract " ^ hex_of_str p ^ " " ^ (match g with None -> "n" | Some n -> dec_of_n n)
+and w_ops (l : op list) : string =
+  string_of_int (List.length l) ^ String.concat "" (List.map (fun o -> " " ^ w_op o) l)
+let w_section = function Lit l -> "L " ^ hex_of_str l | Sec ops -> "S " ^ w_ops ops
+let w_template (t : template) : string =
+  (if t.t_debug then "1" else "0") ^ " " ^ string_of_int (List.length t.t_sections)
+  ^ String.concat "" (List.map (fun s -> " " ^ w_section s) t.t_sections)
+let p_section () : section =
+  match next () with
+  | "L" -> Lit (p_str ())
+  | "S" -> Sec (p_ops ())
+  | t -> raise (Parse ("section " ^ t))
+let p_template () : template =
+  let dbg = next () = "1" in
+  let n = int_of_string (next ()) in
+  let rec go k = if k = 0 then [] else let s = p_section () in s :: go (k - 1) in
+  let secs = go n in
+  { t_raw = []; t_sections = secs; t_debug = dbg }
+
 let show_outcome (f : 'a -> string) (o : 'a outcome) : string =
   match o with Ok a -> "ok " ^ f a | Err -> "err" | Panic -> "panic"
 let show_strlist (l : str list) : string =
@@ -145,6 +202,60 @@ let handle (line : string) : string =
       let r = p_range () in
       let l = p_strlist () in
       "R " ^ show_outcome show_strlist (x_apply_range_str l r) ^ " | " ^ show_strlist (x_select_str r l)
+  | "PARSE" ->
+      (* PARSE <template> -> R ok <dbg> <n> sections.. | err | panic *)
+      let t = p_str () in
+      "R " ^ show_outcome w_template (x_template_parse t)
+  | "PARSEDBG" ->
+      let d = (match next () with "n" -> None | "1" -> Some true | _ -> Some false) in
+      let t = p_str () in
+      "R " ^ show_outcome w_template (x_template_parse_with_debug t d)
+  | "FORMAT" ->
+      (* FORMAT <template struct> <input> -> R <impl format> | <spec format> *)
+      let t = p_template () in
+      let x = p_str () in
+      "R " ^ show_outcome hex_of_str (x_format_pure env t x) ^ " | " ^ show_outcome hex_of_str (x_spec_format env t.t_sections x)
+  | "PARSEFORMAT" ->
+      (* PARSEFORMAT <dbgopt> <template text> <input>: parse by the model, then format *)
+      let d = (match next () with "n" -> None | "1" -> Some true | _ -> Some false) in
+      let txt = p_str () in
+      let x = p_str () in
+      (match x_template_parse_with_debug txt d with
+       | Ok t -> "R " ^ show_outcome hex_of_str (x_format_pure env t x) ^ " | " ^ show_outcome hex_of_str (x_spec_format env t.t_sections x)
+       | Err -> "R err | err"
+       | Panic -> "R panic | panic")
+  | "FWI" ->
+      (* FWI <template struct> <k> (<strlist>)*k <strlist seps> *)
+      let t = p_template () in
+      let k = int_of_string (next ()) in
+      let rec go j = if j = 0 then [] else let l = p_strlist () in l :: go (j - 1) in
+      let inputs = go k in
+      let seps = p_strlist () in
+      "R " ^ show_outcome hex_of_str (x_fwi_pure env t inputs seps) ^ " | " ^ show_outcome hex_of_str (x_spec_fwi env t.t_sections inputs seps)
+  | "CLI" ->
+      (* CLI <tsrc> <tboth> <isrc> <iboth> <stdin> <debug> <quiet> <validate>
+         source: a <hex> | f <hex> | x (unreadable file) | n (absent)  ->  R <exit> <e|r|d> <stdout hex> *)
+      let p_src () = (match next () with
+        | "a" -> FromArg (p_str ()) | "f" -> FromFile (Some (p_str ())) | "x" -> FromFile None | "n" -> Absent
+        | t -> raise (Parse ("source " ^ t))) in
+      let ts = p_src () in let tb = next () = "1" in
+      let is = p_src () in let ib = next () = "1" in
+      let sin = p_str () in
+      let d = next () = "1" in let q = next () = "1" in let v = next () = "1" in
+      let r = x_cli_main env { cli_template = ts; cli_template_both = tb; cli_input = is; cli_input_both = ib;
+                               cli_stdin = sin; cli_debug = d; cli_quiet = q; cli_validate = v } in
+      "R " ^ string_of_int (int_of_n r.cli_exit) ^ " "
+      ^ (match r.cli_stderr with StderrEmpty -> "e" | StderrError -> "r" | StderrDebug -> "d") ^ " " ^ hex_of_str r.cli_stdout
+  | "STRIP" ->
+      let x = p_str () in
+      "R " ^ hex_of_str (x_strip_str x)
+  | "FORMATST" ->
+      (* FORMATST <template struct> <input>: format through run_st against the driver's persistent model caches *)
+      let t = p_template () in
+      let x = p_str () in
+      let (r, c') = x_format_st env t x !caches_state in
+      caches_state := c';
+      "R " ^ show_outcome hex_of_str r ^ " " ^ string_of_int (List.length c'.c_split) ^ " " ^ string_of_int (List.length c'.c_regex)
   | "TYPE" ->
       (* TYPE <ops> -> R <infer: s|l|none> <well_typed 0|1> *)
       let ops = p_ops () in
